@@ -12,8 +12,9 @@ import (
 )
 
 // MemVCS is an in-memory model of a version-control system behind endorse.VersionControl:
-// a committed head (path -> bytes) and workspaces (overlay over the head, made visible only by
-// TryCommit). In WriteThrough mode every write lands in the head immediately, which is the
+// a committed head (path -> bytes) and workspaces (the head as it was when the workspace was opened
+// plus staged writes, made visible only by TryCommit; a submit does not detect that the head moved
+// on, which is the write-write race the repository's RetrySubmit comment is about). In WriteThrough mode every write lands in the head immediately, which is the
 // behaviour of testing/nonprod/localnonvcs. It records a call log and can be scripted to fail.
 type MemVCS struct {
 	Root         string
@@ -23,6 +24,10 @@ type MemVCS struct {
 
 	// FailCommits makes the next n TryCommit calls fail with a retriable error.
 	FailCommits int
+	// OnConflict, if set, runs once inside the next TryCommit that fails with a scripted conflict:
+	// the place where another writer's change lands in the head while this one is in flight. The
+	// remaining scripted conflicts are suspended while it runs.
+	OnConflict func()
 	// FailEndorsementWrite makes the next WriteOrCreateFiles call that carries a *.binarypb file
 	// fail without writing anything.
 	FailEndorsementWrite bool
@@ -50,7 +55,15 @@ func (v *MemVCS) logf(format string, a ...any) { v.Log = append(v.Log, fmt.Sprin
 // GetChangeOps opens a workspace on the current head.
 func (v *MemVCS) GetChangeOps(context.Context) (endorse.ChangeOps, error) {
 	v.logf("GetChangeOps")
-	return &memOps{v: v, overlay: map[string][]byte{}}, nil
+	o := &memOps{v: v, overlay: map[string][]byte{}}
+	if !v.WriteThrough {
+		// a workspace is synced when it is opened (file contents are never modified in place)
+		o.base = make(map[string][]byte, len(v.head))
+		for k, b := range v.head {
+			o.base[k] = b
+		}
+	}
+	return o, nil
 }
 
 // RetriableError reports whether err is the scripted commit conflict.
@@ -87,8 +100,16 @@ func (v *MemVCS) Load(files map[string][]byte) {
 
 type memOps struct {
 	v       *MemVCS
+	base    map[string][]byte // nil in write-through mode: reads see the head
 	overlay map[string][]byte
 	closed  bool
+}
+
+func (o *memOps) synced() map[string][]byte {
+	if o.base != nil {
+		return o.base
+	}
+	return o.v.head
 }
 
 func (o *memOps) WriteOrCreateFiles(_ context.Context, files ...*endorse.File) error {
@@ -130,7 +151,7 @@ func (o *memOps) ReadFile(_ context.Context, p string) ([]byte, error) {
 	if b, ok := o.overlay[p]; ok {
 		return append([]byte(nil), b...), nil
 	}
-	if b, ok := o.v.head[p]; ok {
+	if b, ok := o.synced()[p]; ok {
 		return append([]byte(nil), b...), nil
 	}
 	return nil, fmt.Errorf("%w: %s", errMemNotFound, p)
@@ -144,7 +165,7 @@ func (o *memOps) SetBinaryWritable(_ context.Context, p string) error {
 	if _, ok := o.overlay[p]; ok {
 		return nil
 	}
-	if _, ok := o.v.head[p]; ok {
+	if _, ok := o.synced()[p]; ok {
 		return nil
 	}
 	return fmt.Errorf("%w: %s", errMemNotFound, p)
@@ -165,6 +186,16 @@ func (o *memOps) TryCommit(context.Context) (any, error) {
 	}
 	if o.v.FailCommits > 0 {
 		o.v.FailCommits--
+		if hook := o.v.OnConflict; hook != nil {
+			o.v.OnConflict = nil
+			o.v.logf("TryCommit -> conflict: another change lands first {")
+			rest := o.v.FailCommits
+			o.v.FailCommits = 0
+			hook()
+			o.v.FailCommits = rest
+			o.v.logf("} the other change has landed")
+			return nil, errMemRetriable
+		}
 		o.v.logf("TryCommit -> conflict")
 		return nil, errMemRetriable
 	}
